@@ -46,6 +46,12 @@ type clientState struct {
 
 // runCase executes ops on a fresh guard and returns the observed trace as Coq obs terms.
 func runCase(ops []op, nclients int) (terms []string, human []string, nontrivial bool, hang bool, lastSkipped bool) {
+	panicked := false
+	defer func() {
+		if panicked {
+			human = append(human, "PANIC")
+		}
+	}()
 	g := guard.New()
 	cs := make([]*clientState, nclients)
 	for i := range cs {
@@ -68,6 +74,12 @@ func runCase(ops []op, nclients int) (terms []string, human []string, nontrivial
 				select {
 				case id := <-c.ch:
 					c.pending = false
+					if id == -999 {
+						panicked = true
+						human = append(human, fmt.Sprintf("start of c%d PANICKED inside the guard", ci))
+						progressed = true
+						continue
+					}
 					c.holding = append(c.holding, id)
 					c.all = append(c.all, id)
 					terms = append(terms, common.App("OReturn", common.Nat(ci), common.Z(id)))
@@ -132,6 +144,11 @@ func runCase(ops []op, nclients int) (terms []string, human []string, nontrivial
 			c.pending = true
 			c.ch = make(chan int64, 1)
 			go func(ch chan int64, auth bool) {
+				defer func() {
+					if r := recover(); r != nil {
+						ch <- -999 // the waiting start panicked inside the guard
+					}
+				}()
 				if auth {
 					ch <- int64(g.StartTreasureGuard(true, guard.BodyAuthID))
 				} else {
@@ -322,6 +339,9 @@ func main() {
 			run.Hist(fmt.Sprintf("len_%02d", len(r.terms)))
 			if r.hang {
 				run.Violate(idx, "no-stuck-waiter", "head_waiter_not_woken", "a queued start at the head did not return within 2s")
+			}
+			if len(r.human) > 0 && r.human[len(r.human)-1] == "PANIC" {
+				run.Violate(idx, "exclusive access without crashing", "waiting_start_panicked", "a waiting StartTreasureGuard panicked (its id was removed from the queue while it waited)")
 			}
 		}
 		jobs = nil
